@@ -317,7 +317,7 @@ func (r *Run) RangeCheck(fn *ssa.Function, key string, sp RangeSpec) {
 			if b, ok := in.(*ssa.BinOp); ok && b.Op.String() == "%" && reach.Has(in) {
 				x, m := lin(b.X), lin(b.Y)
 				if entailsLE(facts, x, nil, -1) && entailsLE(facts, m, big.NewInt(1), -1) {
-					rl := lin(b) // the (possibly folded) remainder leaf
+					rl := lin(b)                                                        // the (possibly folded) remainder leaf
 					facts = append(facts, ineqFromLin(rl, nil, -1))                     // −rem ≤ 0
 					facts = append(facts, ineqFromLin(rl.add(m, -1), big.NewInt(1), 1)) // rem − m + 1 ≤ 0
 				}
